@@ -111,7 +111,6 @@ type Frame struct {
 	callIns ssa.Instruction // instruction in caller awaiting result (nil for go/defer)
 	result  Value
 	isDefer bool // frame runs a deferred call: on return, re-execute RunDefers in caller
-	onRet   func(Value)
 }
 
 type deferred struct {
@@ -129,7 +128,7 @@ const (
 )
 
 type waitCase struct {
-	ch  *ChanObj
+	ch  ChanRef
 	dir types.ChanDir
 	val Value
 	idx int
@@ -147,7 +146,8 @@ type Thread struct {
 	status   threadStatus
 	waits    []waitCase
 	wake     *wakeInfo
-	canRun   func() bool
+	wkind    waitKind
+	waddr    uint64
 	sleeping bool
 	sleepGen int
 	noPreempt bool // resume the pending visible op without asking again
@@ -172,6 +172,11 @@ type State struct {
 	globals     map[*ssa.Global]*Obj
 	zero8       *Term
 	zero64      *Term
+
+	maps    []*MapObj
+	chans   []*ChanObj
+	iters   []*rangeIter
+	iterPos []int
 
 	threads []*Thread
 	cur     *Thread
@@ -214,6 +219,11 @@ type State struct {
 	ghost    map[string]Value
 
 	violation *Violation
+	instrBase int      // instructions executed by ancestors (for the per-path budget)
+	stepStart int      // len(trace) when the current scheduler iteration began
+	restart   bool     // first iteration of a forked state: the step is being re-executed
+	resumed   bool     // state was produced by fork (threads already exist)
+	w         *worker
 	gen       int
 	pendA     []*Term
 	pendMsg   []string
@@ -354,6 +364,13 @@ func (st *State) addPC(t *Term) {
 }
 
 func (st *State) syncSolver() {
+	if st.s.owner != st {
+		// another state used this worker's solver since: start from an empty assertion stack
+		st.s.ResetToBase()
+		st.s.Push()
+		st.synced = 0
+		st.s.owner = st
+	}
 	for ; st.synced < len(st.pc); st.synced++ {
 		st.s.Assert(st.pc[st.synced])
 	}
@@ -456,8 +473,7 @@ func (st *State) branch(cond *Term) bool {
 	}
 	switch {
 	case tOK && fOK:
-		alt := append(append([]Dec(nil), st.trace...), Dec{C: 1})
-		st.newAlt(alt)
+		st.fork(Dec{C: 1})
 		st.trace = append(st.trace, Dec{C: 0})
 		st.addPC(cond)
 		st.model = tM
@@ -488,9 +504,8 @@ func (st *State) choose(n int) int {
 		st.trace = append(st.trace, d)
 		return int(d.C)
 	}
-	for i := 1; i < n; i++ {
-		alt := append(append([]Dec(nil), st.trace...), Dec{C: int32(i)})
-		st.newAlt(alt)
+	for i := n - 1; i >= 1; i-- {
+		st.fork(Dec{C: int32(i)})
 	}
 	st.trace = append(st.trace, Dec{C: 0})
 	return 0
@@ -532,8 +547,7 @@ func (st *State) concretize(t *Term, what string) uint64 {
 		eq := st.c.Eq(t, st.c.Const(t.W, val))
 		r, _ := st.query(st.c.BNot(eq))
 		if r != Unsat {
-			alt := append(append([]Dec(nil), st.trace...), Dec{C: 1, V: val})
-			st.newAlt(alt)
+			st.fork(Dec{C: 1, V: val})
 		}
 		st.trace = append(st.trace, Dec{C: 0, V: val})
 		st.addPC(eq)
